@@ -13,11 +13,16 @@ package server
 //@   vars server stream graphName insertCount errorCount elementStream wg element err err gdb err graph err err err
 //@   property C18 C06
 //@   option load=gripql,gdbi
+//@   option prelude=kv
 //@   nopanic
 //@   requires nonnil: server != nil && stream != nil && server.graphMap != nil && server.dbs != nil && server.conf != nil
 //@   requires dbs: forall k:Str :: has(server.dbs, k) ==> server.dbs[k] != nil
 //@   loop 1 invariant open: elementStream != nil && !closed(elementStream)
 //@   loop 1 invariant counts: insertCount >= 0 && errorCount >= 0
+// an element is converted and handed on only after the wire validator accepted the part
+// that the graph will insert (the same validator the one-by-one calls use)
+//@   callsite NewGraphElement requires validvertex: arg0 != nil && (arg0.Vertex != nil && arg0.Edge == nil ==> vertexValid(arg0.Vertex))
+//@   callsite NewGraphElement requires validedge: arg0 != nil && (arg0.Edge != nil && arg0.Vertex == nil ==> edgeValid(arg0.Edge))
 
 // The gRPC client stream and the graph database registry, as the handler uses them
 // (ASSUMED of google.golang.org/grpc and of the drivers).
